@@ -237,7 +237,7 @@ def accessor_case(ctx, rng, nparts):
 def run(ctx):
     install_hook()
     rng = ctx.rng("c15")
-    for i in range(ctx.scale(500, 12_000)):
+    for i in range(ctx.scale(500, 60_000)):
         form = MC.gen_form(rng, max_parts=6)
         for p in form["parts"]:
             if p["filename"] is None and rng.random() < 0.4:
